@@ -194,6 +194,10 @@ def run(ctx):
     # ---------------- part 3: invalid-heavy histories on the faithful models
     # sequences (C04 machinery)
     drv = ctx.build_driver('Seq')
+    try:        # as props/C04.py does: exact capacity comparison only when the capacity policy was read from the source
+        P4.EXACT_CAPACITY[0] = 'array_policy_from_source : bool := true' in open(os.path.join(vlib.COQ, 'Generated.v')).read()
+    except OSError:
+        P4.EXACT_CAPACITY[0] = False
     h = ctx.build_harness('seq_wb.c', whitebox=['Array', 'List'], extra=P4.list_cursor_flags(ctx))   # built exactly as C04 builds it
     ri = lambda cs: ctx.run_lines(h, cs)[1]
     rm = lambda cs: ctx.run_lines(drv, cs, args=['model'])[1]
